@@ -82,6 +82,10 @@ func raceChild(args []string) {
 			o = bigFetchChild(*seed, *dir)
 		case "late":
 			o = lateDocsChild(*seed, *dir)
+		case "coldsealed":
+			o = coldSealedChild(*seed, *dir)
+		case "sealwindow":
+			o = sealWindowChild(*seed, *dir)
 		default:
 			o = sealedPoolChild(*seed, *dir)
 		}
@@ -536,7 +540,8 @@ func runRace(rep *vh.Report, o vh.Opts, replayLine string) {
 		}
 		for i := 0; i < o.Pick(1, 4); i++ { // directed: append across a rotation; sealed providers after a failed search
 			cfgs = append(cfgs, cfg{seed: int(o.Seed)*100 + i, mode: "rot"}, cfg{seed: int(o.Seed)*100 + i, mode: "sealedpool"},
-				cfg{seed: int(o.Seed)*100 + i, mode: "fsync"}, cfg{seed: int(o.Seed)*100 + i, mode: "bigfetch"}, cfg{seed: int(o.Seed)*100 + i, mode: "late"})
+				cfg{seed: int(o.Seed)*100 + i, mode: "fsync"}, cfg{seed: int(o.Seed)*100 + i, mode: "bigfetch"}, cfg{seed: int(o.Seed)*100 + i, mode: "late"},
+				cfg{seed: int(o.Seed)*100 + i, mode: "coldsealed"}, cfg{seed: int(o.Seed)*100 + i, mode: "sealwindow"})
 		}
 		for i := 0; i < o.Pick(1, 3); i++ { // the single-mode write path (in-memory store client, reused metas buffer)
 			cfgs = append(cfgs, cfg{seed: int(o.Seed)*100 + i, bulks: o.Pick(60, 200), inmem: true})
